@@ -282,6 +282,9 @@ func runCheck(id, tier, filter string) int {
 				cfg.MaxPreempt = p
 			}
 			cfg.SampleEvery = 29
+			if n, _ := strconv.Atoi(os.Getenv("GOSMT_SAMPLE_EVERY")); n > 0 {
+				cfg.SampleEvery = n
+			}
 			cfg.Seed = seed
 			res, err := ld.Explore(e.Name, cfg)
 			if err != nil {
@@ -351,6 +354,9 @@ func runCheck(id, tier, filter string) int {
 			nS := 6
 			if tier == "thorough" {
 				nS = 24
+			}
+			if n, _ := strconv.Atoi(os.Getenv("GOSMT_NATIVE_SAMPLES")); n > 0 {
+				nS = n // debugging aid: cross-validate more of the sampled paths
 			}
 			for i := range res.Samples {
 				if i >= nS {
